@@ -612,8 +612,13 @@ class OrConstraint(AbstractConstraint):
                         for group in rest
                     ],
                 ]
+                # Deduplicate while keeping the order of the operands, so that the
+                # order of the resulting union does not depend on hashing.
                 yield Constraint(
-                    varname, ConstraintType.one_of, True, list(set(constraints))
+                    varname,
+                    ConstraintType.one_of,
+                    True,
+                    list(dict.fromkeys(constraints)),
                 )
 
     def _constraint_from_list(
